@@ -494,6 +494,33 @@ for _text_limit in ("maxstring", "maxother"):
     setattr(aRepr, _text_limit, 256)
 """),
     ],
+    "mutants/c14_fix_new_as_static_method_reverted": [
+        (CHK, """                setattr(cls, "__new__", staticmethod(wrapper))
+""", """                setattr(cls, "__new__", wrapper)
+"""),
+    ],
+    "mutants/c04_fix_ctor_copy_shadow_reverted": [
+        # the constructor found without the copies is not used: the copy of an inherited constructor hides the sibling's again
+        (CHK, """                    new_func = native
+                    unshadowed.add("__new__")
+""", """                    pass
+"""),
+        (CHK, """            if wrapper is not init_func or "__init__" in unshadowed:
+                if wrapper is not init_func and "__init__" not in cls.__dict__:
+                    setattr(wrapper, "__is_inherited_copy__", True)
+
+                setattr(cls, "__init__", wrapper)
+""", """            if wrapper is not init_func:
+                setattr(cls, "__init__", wrapper)
+"""),
+    ],
+    "mutants/c14_fix_builtin_sibling_slots_reverted": [
+        (CHK, """                inspect.isfunction(native)
+                or isinstance(native, (property, _SLOT_WRAPPER_TYPE))
+""", """                inspect.isfunction(native)
+                or isinstance(native, property)
+"""),
+    ],
     "mutants/c14_fix_unreadable_class_attribute_reverted": [
         (CHK, """        try:
             value = getattr(cls, name)
